@@ -1,0 +1,40 @@
+//go:build verif && linux
+
+package nsqd
+
+import (
+	"os"
+	"os/signal"
+	"strconv"
+	"strings"
+	"syscall"
+)
+
+// NSQ_VERIF_FSIZE="point|k|bytes": at the k-th hit of point the process lowers its
+// RLIMIT_FSIZE to bytes and ignores SIGXFSZ, so that from then on every write that
+// would grow a regular file beyond that size is cut short and fails with EFBIG while
+// fsync, close and rename keep working (a write fault of the ENOSPC / EDQUOT shape
+// for the metadata write protocol of a subprocess daemon).
+func init() {
+	spec := os.Getenv("NSQ_VERIF_FSIZE")
+	if spec == "" {
+		return
+	}
+	g := strings.Split(spec, "|")
+	if len(g) != 3 {
+		return
+	}
+	k, err1 := strconv.Atoi(g[1])
+	n, err2 := strconv.ParseUint(g[2], 10, 63)
+	if err1 != nil || err2 != nil || k < 1 {
+		return
+	}
+	VerifArmFunc(g[0], k, func() {
+		signal.Ignore(syscall.SIGXFSZ)
+		var lim syscall.Rlimit
+		if syscall.Getrlimit(syscall.RLIMIT_FSIZE, &lim) == nil {
+			lim.Cur = n
+			syscall.Setrlimit(syscall.RLIMIT_FSIZE, &lim)
+		}
+	})
+}
